@@ -145,6 +145,16 @@ class SGen(object):
         r = self.r
         k = r.random()
         leaf = depth <= 0
+        if k < 0.02:
+            # an element that holds nothing but white space the stylesheet wrote: kept wherever it ends up (result tree fragments included),
+            # whatever xsl:strip-space says about the source
+            self.f('whitespace-only-element')
+            e = '<%s><xsl:text>%s</xsl:text></%s>' % (('w', r.choice([' ', '\n', ' \t ', '  ']), 'w') if r.random() < 0.7 else ('o xml:space="default"', ' ', 'o'))
+            if r.random() < 0.6:
+                # ... also after a detour through a result tree fragment
+                vn = self.fresh('v')
+                return '<xsl:variable name="%s">%s<t>-</t></xsl:variable><xsl:copy-of select="$%s"/>' % (vn, e, vn)
+            return e
         if k < 0.16:
             self.f('value-of')
             return '<xsl:value-of select="%s"/>' % aesc(self.expr(r.choice(['str', 'num', 'ns', 'bool', 'any']), scope))
@@ -289,6 +299,13 @@ class SGen(object):
             self.f('exclude-result-prefixes')
         parts.append(HEAD % extra)
         parts.append('<xsl:output method="%s" indent="no"/>' % output)
+        if strip is None and 'no-strip-space' not in self.avoid and r.random() < 0.2:
+            # whitespace stripping applies to source documents only: text nodes the stylesheet creates (in result tree fragments too) stay
+            names = sorted(n for n in self.info.elem_names if ':' not in n) if self.info is not None and self.info.elem_names else []
+            strip = '<xsl:strip-space elements="%s"/>' % r.choice(['*', '*', ' '.join(r.sample(names, min(len(names), 2)) + ['w', 'o']) or '*'])
+            if r.random() < 0.3:
+                strip += '<xsl:preserve-space elements="%s"/>' % r.choice(['w', 'o r', (names or ['doc'])[0]])
+            self.f('strip-space')
         if strip:
             parts.append(strip)
         # keys
